@@ -82,6 +82,9 @@ func (s *Durable) store(tx *buntdb.Tx, key string, t Value) {
 	}
 
 	tx.Set(key, t.encode(), opts)
+
+	// Drop the cached copy so that readers do not keep seeing the previous value
+	s.cache.Del(binary.ToBytes(key))
 }
 
 // Fetch fetches the item either from transaction or cache.
